@@ -502,7 +502,7 @@ public:
       spx_alloc(newMem, newmax);
 
       /* call copy constructor for first elements */
-      for(i = 0; i < max(); i++)
+      for(i = 0; i < max() && i < newmax; i++)
       {
          newMem[i].data = std::move(theitem[i].data);
          newMem[i].info = theitem[i].info;
